@@ -469,8 +469,8 @@ def row_text(e):
 
 
 def hex_part(t):
-    i = t.find("binascii")
-    return t[i:i + 40] if i >= 0 else ""
+    i = t.find(".hex()")
+    return t[max(0, i - 20):i + 12] if i >= 0 else ""
 
 
 def q4(run, project):
@@ -548,9 +548,18 @@ def q4(run, project):
     # attribute rows
     ae = pa.args.args[0].arg
     rows = [y for y in walk_no_nested(pa) if isinstance(y, ast.Yield) and isinstance(y.value, ast.Call) and call_name(y.value) == "format"]
-    ok = len(rows) == 1 and [norm(a) for a in rows[0].value.args[:3]] == ["None", "path", "None"]
-    pth = [s for s in walk_no_nested(pa) if isinstance(s, ast.Assign) and norm(s.targets[0]) == "path"]
-    ok = ok and len(pth) == 1 and norm(pth[0].value) in (f"{ae}.path + PathNode(attribute._name)", f"{ae}.path / PathNode(attribute._name)")
+    ok = len(rows) == 1 and len(rows[0].value.args) >= 3 and [norm(rows[0].value.args[0]), norm(rows[0].value.args[2])] == ["None", "None"]
+    if ok:
+        # the row's path: the event's path extended by the attribute's name (through a local or in place)
+        parg = rows[0].value.args[1]
+        if isinstance(parg, ast.Name):
+            pth = [s for s in walk_no_nested(pa) if isinstance(s, ast.Assign) and norm(s.targets[0]) == parg.id]
+            parg = pth[0].value if len(pth) == 1 else None
+        lp_ = rows[0]
+        while lp_ is not None and not isinstance(lp_, ast.For):
+            lp_ = getattr(lp_, "_parent", None)
+        av = lp_.target.id if lp_ is not None and isinstance(lp_.target, ast.Name) else "attribute"
+        ok = parg is not None and norm(parg) in (f"{ae}.path + PathNode({av}._name)", f"{ae}.path / PathNode({av}._name)")
     run.ob("Q4", ok, "attribute rows: path + PathNode(attr), no type, no hex column", "attribute row shape changed", module=mod,
            node=rows[0] if rows else pa, func="pretty_attrs", construct="attribute row")
     # attribute rows only from the main loop, after the event's own row, for MarshalEvents with attributes()
